@@ -262,10 +262,11 @@ def run_all(ctx, sched_cases, conc_cases, label="", selftest=True):
             len(expected_reject) - len(missed), len(expected_reject), ",".join(sorted(expected_reject.values())))
         if missed:
             raise vlib.MachineryError("binding self-test: TracePipe accepted corrupted traces: %s" % missed)
-    if rep[0]["drift"]:
-        ex = rep[0]["drift"][0]
+    hv = [d for d in rep[0]["drift"] if d["cid"] < SELFTEST_BASE]
+    if hv:
+        ex = hv[0]
         ctx.drift("action=hook-view %d event(s): buffered length / flags seen by the hook differ from the model, e.g. %s at %s"
-                  % (len(rep[0]["drift"]), ex["why"], json.dumps(events[ex["l"] - 1])[:300]))
+                  % (len(hv), ex["why"], json.dumps(events[ex["l"] - 1])[:300]))
     ctx.traces(len(by_cid))
     for cid_, evs in by_cid.items():
         mode, case = origin[cid_]
@@ -315,14 +316,14 @@ def check_c21(ctx):
     g0 = {"CAPS": "2", "MAXW": 3, "MAXR": 2, "WRITES": 2, "COPS": 1, "ERRREADS": 1,
           "CERRS": '"e1"', "BERRS": '"e2"', "OPS": 6, "GATE": 0} if q else \
          {"CAPS": "1,2", "MAXW": 3, "MAXR": 2, "WRITES": 2, "COPS": 2, "ERRREADS": 1,
-          "CERRS": '"eof","e1"', "BERRS": '"e2"', "OPS": 8, "GATE": 0}
+          "CERRS": '"eof","e1"', "BERRS": '"e2"', "OPS": 7, "GATE": 0}
     ctx.cov["constants"]["Gen_exhaustive"] = g0
     cases += gen(ctx, g0, timeout=1500)
     g1 = {"CAPS": "1,2,3,4", "MAXW": 5, "MAXR": 4, "WRITES": 6, "COPS": 3, "ERRREADS": 2,
           "CERRS": '"eof","e1","e2"', "BERRS": '"eof","e2"', "OPS": 16, "GATE": 12}
     ctx.cov["constants"]["Gen_simulate"] = g1
-    cases += gen(ctx, g1, mode="sim", num=400 if q else 6000, depth=24)
-    conc = scenarios(ctx, 300 if q else 4000)
+    cases += gen(ctx, g1, mode="sim", num=400 if q else 4000, depth=24)
+    conc = scenarios(ctx, 300 if q else 3000)
     run_all(ctx, cases, conc, label="C21")
 
 
